@@ -80,6 +80,8 @@ func (s *store) gc() {
 			err := s.ss.Set(m.key, m.value)
 			if err != nil {
 				log.Println("GC: ", err)
+				// the only copy is the one in memory: keep it, and keep it marked as modified
+				return true
 			}
 		}
 		m.reset()
